@@ -905,7 +905,7 @@ def run_strids(ctx):
         nd, nt = rng.randint(1, 3), rng.randint(1, 3)
         ids = []
         while len(ids) < nd + nt + 1:
-            x = rand_id(rng)
+            x = ID_CORPUS[(rnd * 3 + len(ids)) % len(ID_CORPUS)] if rnd < 6 and len(ids) < 3 else rand_id(rng)
             if x not in ids and not x.startswith('tw'):
                 ids.append(x)
         pairs = {}        # role -> (twin obj, real obj)
@@ -1005,7 +1005,7 @@ def run_strids(ctx):
                         % (kind, rout, tout, rsql[:3], 'identically' if rsk == tsk else 'DIFFERENTLY', state_ok))
                 if kind in ('selobj', 'inobj') and state_ok:
                     ctx.oracle_fail(KEY_INST, 'an SQLObject instance with a string id used as a query value (T.q.id == obj, '
-                                    'IN(col, [obj])) is rendered by SQLObject.__sqlrepr__ as the bare id text, unquoted: ' + what, desc)
+                                    'IN(col, [obj])) is not rendered as the literal of its id (fixed in 56fe495): ' + what, desc)
                 else:
                     ctx.oracle_fail('C02:sqlite:str-id:%s' % kind, what, desc)
                 # resynchronise the expectation with the table so that one failure is reported once
